@@ -371,6 +371,15 @@ def decide(props, a, seed, workdir, t0):
         seeds = [jobs[k].result() for k in sorted(jobs) if k.startswith('seed')]
         kr = kani_future.result() if kani_future else {'harnesses': [], 'build_error': None, 'wall': 0}
     fails = classify(vr, maps, image_lines, lookup)
+
+    def mark_frontend(vr, fails):
+        # the image did not reach the proof stage: every diagnostic is a front-end (rustc / VIR) rejection
+        res = (vr['json'] or {}).get('verification-results', {})
+        if vr['json'] is None or (not res.get('verified') and not res.get('errors')) or res.get('encountered-vir-error'):
+            for f in fails:
+                if f['kind'] == 'verification':
+                    f['kind'] = 'frontend'
+    mark_frontend(vr, fails)
     # Degrade instead of giving up: if the front end rejects spliced *body* annotations of a function (a local was
     # renamed, a statement moved), drop that function's body annotations and verify again.  Failures in such a
     # function are then only reported with a concrete witness.
@@ -381,12 +390,13 @@ def decide(props, a, seed, workdir, t0):
             break
         new_skip = set()
         for f in fe:
-            tagged = [ln for ln in f['lines'] if ln - 1 < len(image_lines) and re.search(r'//\s*@(vf|L\d+)\s*$', image_lines[ln - 1])]
-            if tagged and f['fn'] and f['fn'] in maps['contracts'] and f['fn'] not in skip_body:
-                # only body annotations can be dropped; a contract line that no longer type-checks stays inconclusive
-                rng = [r for r in maps['fn_ranges'] if r[0] <= tagged[0] <= r[1]]
-                if rng and tagged[0] > min(r[3] for r in rng):
-                    new_skip.add(f['fn'])
+            # a front-end error located inside the body of a function that carries spliced body annotations
+            # (ghost code, invariants, closure contracts): drop those annotations (the contract stays)
+            for ln in f['lines']:
+                k = lookup(ln)
+                rng = [r for r in maps['fn_ranges'] if r[0] <= ln <= r[1]]
+                if k and k in maps['contracts'] and k not in skip_body and rng and ln > min(r[3] for r in rng):
+                    new_skip.add(k)
         if not new_skip:
             break
         skip_body |= new_skip
@@ -395,13 +405,16 @@ def decide(props, a, seed, workdir, t0):
         image_lines = image.split('\n')
         vr = run_verus(ppath, os.path.dirname(ppath), None, 8)
         fails = classify(vr, maps, image_lines, lookup)
+        mark_frontend(vr, fails)
     frame_files, frame_hits = frame_scan(REPO)
     if os.environ.get('VF_DEV'):
         for f in fails:
             names = [maps['labels'][li]['label']['name'] for li in f['labels']]
             print('DEV %-12s fn=%s labels=%s lines=%s :: %s' % (f['kind'], f['fn'], names, f['lines'][:3], f['message'][:100]))
     frontend = [f for f in fails if f['kind'] == 'frontend']
-    if vr['json'] is None or (frontend and not vr['json'].get('verification-results', {}).get('verified')):
+    if vr['json'] is None or (frontend and not vr['json'].get('verification-results', {}).get('verified')) \
+            or (not vr['json'].get('verification-results', {}).get('verified') and not vr['json'].get('verification-results', {}).get('success')
+                and not vr['json'].get('verification-results', {}).get('errors')):
         # the image did not reach the proof stage
         c19 = [f for f in frontend if C19_FORBIDDEN.search(f['message'] + f['rendered'])]
         if frame_hits and not c19:
